@@ -25,7 +25,12 @@ struct Line {
     moved: bool,
     strict_moved: bool,
     fresh: bool,
+    gap_at: usize,  // byte offset of the blank run between the line's first two tokens (outside any quoted literal)
+    gap_len: usize,
 }
+
+// blank runs between two tokens: ASCII and everything else char::is_whitespace accepts (no line feed)
+const BLANKS: &[&str] = &[" ", "  ", "\t", "\u{00A0}", "\u{3000}", "\u{000B}", "\u{000C}", "\u{2003}", "\u{0085}", "\u{2028}", " \u{00A0} ", "\u{00A0}\u{00A0}", "\t\u{3000}"];
 
 fn fresh_line(rng: &mut Rng, n: &mut usize, author: &str) -> Line {
     fresh_line2(rng, n, author, false)
@@ -34,7 +39,10 @@ fn fresh_line(rng: &mut Rng, n: &mut usize, author: &str) -> Line {
 fn fresh_line2(rng: &mut Rng, n: &mut usize, author: &str, no_long: bool) -> Line {
     *n += 1;
     let pre = *rng.pick(PREFIXES);
-    let mut text = format!("{}tok{:05}_{} v{}", pre, *n, &author[..2], rng.below(1000));
+    let gap = if rng.chance(1, 10) { *rng.pick(BLANKS) } else { " " };
+    let head = format!("{}tok{:05}_{}", pre, *n, &author[..2]);
+    let (gap_at, gap_len) = (head.len(), gap.len());
+    let mut text = format!("{}{}v{}", head, gap, rng.below(1000));
     if rng.chance(1, 6) {
         let lit = *rng.pick(LITERALS);
         // finding D51: a quote that is never closed on its line (the literal is lexed across the line break)
@@ -47,7 +55,7 @@ fn fresh_line2(rng: &mut Rng, n: &mut usize, author: &str, no_long: bool) -> Lin
         text.push(' ');
         text.push_str(&"x".repeat(*rng.pick(&[300usize, 5000, 40000])));
     }
-    Line { text, author: author.to_string(), moved: false, strict_moved: false, fresh: true }
+    Line { text, author: author.to_string(), moved: false, strict_moved: false, fresh: true, gap_at, gap_len }
 }
 
 fn join(lines: &[Line], eol: &str, final_nl: bool) -> String {
@@ -239,7 +247,20 @@ pub fn run(seed: u64, n: usize, extra: &[String]) -> String {
             5 => {
                 // whitespace-only reformat: re-indent, trailing blanks, CRLF <-> LF
                 ws_only = true;
-                match rng.below(3) {
+                match rng.below(4) {
+                    3 => {
+                        // the blank run between two tokens is rewritten: ASCII <-> non-ASCII blanks (NBSP, ideographic space, VT, FF, ...)
+                        for l in lines.iter_mut() {
+                            if rng.chance(1, 2) {
+                                let cur = l.text[l.gap_at..l.gap_at + l.gap_len].to_string();
+                                let mut g = *rng.pick(BLANKS);
+                                if g == cur { g = if cur == " " { "\u{00A0}" } else { " " }; }
+                                l.text = format!("{}{}{}", &l.text[..l.gap_at], g, &l.text[l.gap_at + l.gap_len..]);
+                                l.gap_len = g.len();
+                            }
+                        }
+                        ops.push("gap-blanks".into());
+                    }
                     0 => { for l in lines.iter_mut() { if rng.chance(1, 2) { l.text = format!("    {}", l.text); } } ops.push("reindent".into()); }
                     1 => { for l in lines.iter_mut() { if rng.chance(1, 2) { l.text = format!("{}  ", l.text.trim_end()); } } ops.push("trailing".into()); }
                     _ => { new_eol = if eol == "\n" { "\r\n" } else { "\n" }; ops.push("eol-flip".into()); }
